@@ -891,6 +891,21 @@ class CmpVisEdgeRotation
             {
                 return u->rotationLessThan(_lastPt, v);
             }
+            // Order these by the IDs and then positions of their endpoints,
+            // rather than by pointer value, so the order in which edges are
+            // explored doesn't depend on where they were allocated.
+            std::pair<VertID, VertID> uIds = u->ids();
+            std::pair<VertID, VertID> vIds = v->ids();
+            if (uIds != vIds)
+            {
+                return uIds < vIds;
+            }
+            std::pair<Point, Point> uPoints = u->points();
+            std::pair<Point, Point> vPoints = v->points();
+            if (uPoints != vPoints)
+            {
+                return uPoints < vPoints;
+            }
             return u < v;
         }
     private:
